@@ -49,12 +49,13 @@ theorem GenStrip.sepNotDigit {c : Cfg} {o : POpts} (hG : GenStrip c o) (x : Nat)
   isDigit_of_stop c x (sep_lt_256 c x h) hG.radixM (hG.sepDigM x h)
 
 theorem rescan_of_not_itc (c : Cfg) (o : POpts) (hG : GenStrip c o) (k : Comp) (hks : k ≠ .special)
-    (h : c.skip k ≠ .pred .itc) : Rescan c k := by
+    (h : c.skip k ≠ .pred .itc ∨ Fix.itc = true) : Rescan c k := by
   cases hk : c.skip k with
   | noskip => exact rescan_contig c k (contig_of_noskip c k hk)
   | unreachable => exact absurd hk (hG.rel.reach k)
   | pred p =>
-    exact rescan_pred c k p hk (by intro e; subst e; exact h hk) hG.rel.debug hG.rel.reach hG.format hks hG.sepDigM
+    exact rescan_pred c k p hk (h.imp (fun h1 e => by subst e; exact h1 hk) id) hG.rel.debug hG.rel.reach hG.format hks
+      hG.sepDigM
 
 theorem peekStable_any (c : Cfg) (o : POpts) (hG : GenStrip c o) (k : Comp) : PeekStable c k := by
   cases hk : c.skip k with
@@ -64,7 +65,8 @@ theorem peekStable_any (c : Cfg) (o : POpts) (hG : GenStrip c o) (k : Comp) : Pe
 
 /-- **strip_preserves for every flag combination except I+T+C on the integer / fraction component** -/
 theorem parseFloatSyntax_strip_all (c : Cfg) (o : POpts) (hG : GenStrip c o)
-    (hI : c.skip .integer ≠ .pred .itc) (hF : c.skip .fraction ≠ .pred .itc) (s : List Nat)
+    (hI : c.skip .integer ≠ .pred .itc ∨ Fix.itc = true) (hF : c.skip .fraction ≠ .pred .itc ∨ Fix.itc = true)
+    (s : List Nat)
     (hb256 : ∀ x ∈ s, x < 256) (fv : Bool) (n : Number) (cnt : Nat)
     (h : parseFloatSyntax c o false s fv = .ok (.number n cnt)) :
     ∃ n', parseFloatSyntax c o false (nonSep c s) fv = .ok (.number n' (nonSep c s).length) ∧ NumRel c n n' ∧
